@@ -60,8 +60,15 @@ pub enum Pending {
     /// like BatchableOutcome, and the peer has already reported a non-terminal state for the delivery
     /// (disposition received(0, 0), not settled) when the fault comes
     BatchableOutcomeReceived,
+    /// the outcome of an earlier send_batchable() is outstanding, the link has been detached (not closed) and its
+    /// resume() is in flight - the library's attach is out, the peer's has not come - when the fault stops the session
+    /// or the connection
+    BatchableOutcomeResuming,
+    /// nothing is pending, but the sending link HAS credit when the fault comes, and the application's next operation
+    /// on it is a send_batchable() whose outcome it then awaits
+    IdleWithCredit,
 }
-pub const PENDINGS: [Pending; 10] = [
+pub const PENDINGS: [Pending; 12] = [
     Pending::Idle,
     Pending::SendWaitingCredit,
     Pending::SendAwaitingOutcome,
@@ -72,6 +79,8 @@ pub const PENDINGS: [Pending; 10] = [
     Pending::EndPending,
     Pending::ClosePending,
     Pending::BatchableOutcomeReceived,
+    Pending::BatchableOutcomeResuming,
+    Pending::IdleWithCredit,
 ];
 
 #[derive(Debug, Clone, Copy, PartialEq, Eq, Hash)]
@@ -134,10 +143,10 @@ fn carries(f: Flt) -> bool {
 /// A pending operation on another scope legitimately stays pending: the scripted peer never answers it.
 fn pending_affected(pd: Pending, f: Flt) -> bool {
     match pd {
-        Pending::Idle => false,
+        Pending::Idle | Pending::IdleWithCredit => false,
         Pending::SendWaitingCredit | Pending::SendAwaitingOutcome | Pending::BatchableOutcome | Pending::BatchableOutcomeReceived | Pending::DetachPending => conn_level(f) || sess_level(f) || s_link(f),
         Pending::RecvWaiting => conn_level(f) || sess_level(f) || r_link(f),
-        Pending::AttachPending | Pending::EndPending => conn_level(f) || sess_level(f),
+        Pending::AttachPending | Pending::EndPending | Pending::BatchableOutcomeResuming => conn_level(f) || sess_level(f),
         Pending::ClosePending => conn_level(f),
     }
 }
@@ -208,6 +217,11 @@ pub async fn scenario_b(pd: Pending, flt: Flt) -> BObs {
     let mut conn_opt = Some(c.conn);
     let pending_task: Option<tokio::task::JoinHandle<(String, Back)>> = match pd {
         Pending::Idle => None,
+        Pending::IdleWithCredit => {
+            c.peer.grant(0, s_lib_handle, 10);
+            settle(&mut c.peer, 1).await;
+            None
+        }
         Pending::SendWaitingCredit => {
             let mut s = sender_opt.take().unwrap();
             Some(tokio::spawn(async move {
@@ -231,6 +245,32 @@ pub async fn scenario_b(pd: Pending, flt: Flt) -> BObs {
                 };
                 (r, Back::S(s))
             }))
+        }
+        Pending::BatchableOutcomeResuming => {
+            c.peer.grant(0, s_lib_handle, 10);
+            settle(&mut c.peer, 1).await;
+            let mut s = sender_opt.take().unwrap();
+            let fut = match drive(&mut c.peer, s.send_batchable("outcome outstanding, link resuming"), scen::H).await {
+                Some(Ok(f)) => Some(f),
+                _ => None,
+            };
+            // non-closing detach, answered by the peer; then the resume whose attach the peer does not answer
+            let det = drive(&mut c.peer, s.detach(), scen::H).await;
+            c.peer.auto.attach = false;
+            match (fut, det) {
+                (Some(fut), Some(Ok(det))) => Some(tokio::spawn(async move {
+                    // resume() fails when the session stops and hands the detached link back: the application keeps it
+                    // (it owns the unsettled deliveries) while it waits for the outcome
+                    let resumed = tokio::time::timeout(OP_TIMEOUT, det.resume()).await;
+                    let r = op(fut).await;
+                    drop(resumed);
+                    (r, Back::None)
+                })),
+                _ => {
+                    obs.machinery = Some("part B: could not set up the resuming link".into());
+                    None
+                }
+            }
         }
         Pending::RecvWaiting => {
             let mut r = receiver_opt.take().unwrap();
@@ -374,7 +414,17 @@ pub async fn scenario_b(pd: Pending, flt: Flt) -> BObs {
     // ---- follow-up operations on every handle
     let (cl, sl) = (conn_level(flt), sess_level(flt));
     if let Some(s) = sender_opt.as_mut().filter(|_| cl || sl || s_link(flt)) {
-        let r = drive(&mut c.peer, op(s.send("after the fault")), OP_TIMEOUT + Duration::from_secs(5)).await.unwrap_or("TIMEOUT".into());
+        let r = if pd == Pending::IdleWithCredit {
+            let fut = async {
+                match s.send_batchable("after the fault (batchable)").await {
+                    Ok(outcome) => op(outcome).await,
+                    Err(e) => format!("err:{:?}", e),
+                }
+            };
+            drive(&mut c.peer, tokio::time::timeout(OP_TIMEOUT * 2, fut), OP_TIMEOUT * 2 + Duration::from_secs(5)).await.map(|r| r.unwrap_or("TIMEOUT".into())).unwrap_or("TIMEOUT".into())
+        } else {
+            drive(&mut c.peer, op(s.send("after the fault")), OP_TIMEOUT + Duration::from_secs(5)).await.unwrap_or("TIMEOUT".into())
+        };
         obs.followups.push(("send".into(), r));
     }
     if let Some(r) = receiver_opt.as_mut().filter(|_| cl || sl || r_link(flt)) {
@@ -435,7 +485,7 @@ fn judge_b(pd: Pending, flt: Flt, o: &BObs, panics: &[String]) -> Vec<(String, S
             f.push((format!("op-after-fault-succeeds op={name} fault={:?}", flt), format!("{what}: {name} returned Ok although its {scope_name} had stopped; {}", all())));
         }
     }
-    let data_pending = matches!(pd, Pending::SendWaitingCredit | Pending::SendAwaitingOutcome | Pending::BatchableOutcome | Pending::BatchableOutcomeReceived | Pending::RecvWaiting | Pending::AttachPending);
+    let data_pending = matches!(pd, Pending::SendWaitingCredit | Pending::SendAwaitingOutcome | Pending::BatchableOutcome | Pending::BatchableOutcomeReceived | Pending::BatchableOutcomeResuming | Pending::RecvWaiting | Pending::AttachPending);
     if data_pending && pending_affected(pd, flt) && o.pending_was_pending && o.pending_result == "ok" {
         f.push((format!("pending-op-succeeds pending={:?} fault={:?}", pd, flt), format!("{what}: the operation in progress returned Ok although its {scope_name} stopped; {}", all())));
     }
